@@ -21,24 +21,36 @@ def main(tier):
                        "says the object is live", "Linux /proc/self/fd"]
     out = build.build_variant("asan")
     e = build.env_for("asan")
-    p = subprocess.run([os.path.join(out, "harness", "ephmc"), str(depth)], env=e, stdout=subprocess.PIPE, stderr=subprocess.STDOUT, timeout=3000)
-    txt = p.stdout.decode("utf-8", "replace")
-    m = re.search(r"STATS states=(\d+) transitions=(\d+) depth=(\d+) alphabet=(\d+) gc_transitions=(\d+) violations=(\d+)", txt)
-    if not m or "AddressSanitizer" in txt or p.returncode not in (0, 1):
-        chk.violation({"op": "ephmc-crash"}, "ephmc ended abnormally rc=%s: %s" % (p.returncode, txt[-800:]))
-    else:
+    # two explorations in parallel: a one-segment heap, and a heap with a second (last) segment while the objects live in the first
+    # (the collector's ephemeron fix-point then has to hold across segments); the second one is a level shallower
+    from concurrent.futures import ThreadPoolExecutor
+    def run_ephmc(a):
+        dpt, multi = a
+        return a, subprocess.run([os.path.join(out, "harness", "ephmc"), str(dpt), str(multi)], env=e, stdout=subprocess.PIPE,
+                                 stderr=subprocess.STDOUT, timeout=3000)
+    with ThreadPoolExecutor(2) as ex:
+        runs = list(ex.map(run_ephmc, [(depth, 0), (depth - 1, 1)]))
+    for (dpt, multi), p in runs:
+        txt = p.stdout.decode("utf-8", "replace")
+        m = re.search(r"STATS states=(\d+) transitions=(\d+) depth=(\d+) alphabet=(\d+) gc_transitions=(\d+) violations=(\d+)", txt)
+        if not m or "AddressSanitizer" in txt or p.returncode not in (0, 1):
+            chk.violation({"op": "ephmc-crash", "segments": 2 if multi else 1}, "ephmc (depth %d, %s) ended abnormally rc=%s: %s" % (
+                dpt, "two segments" if multi else "one segment", p.returncode, txt[-800:]))
+            continue
         states, trans = int(m.group(1)), int(m.group(2))
         chk.count(trans, outcome="eph-transition")
         chk.nontrivial_n += states
-        chk.cov["states"] = states
-        chk.cov["transitions"] = trans
-        chk.cov["traces_validated_against_impl"] = trans
-        chk.cov["gc_transitions"] = int(m.group(5))
+        chk.cov["states"] = chk.cov.get("states", 0) + states
+        chk.cov["transitions"] = chk.cov.get("transitions", 0) + trans
+        chk.cov["traces_validated_against_impl"] = chk.cov.get("traces_validated_against_impl", 0) + trans
+        chk.cov["gc_transitions"] = chk.cov.get("gc_transitions", 0) + int(m.group(5))
         for l in txt.split("\n"):
             if l.startswith("VIOLATION "):
                 hist, _, msg = l[10:].partition(" :: ")
-                chk.violation({"op": "ephemeron", "history": hist, "msg": msg}, "history [%s]: %s" % (hist, msg), "history=%s\n" % hist, ext="hist")
-        chk.sample("newkey(0) neweph(E0,key=K0,value=list-of-own-key) dropkey(0) gc  => E0 must be broken")
+                chk.violation({"op": "ephemeron", "history": hist, "msg": msg, "segments": 2 if multi else 1},
+                              "history [%s] (%s): %s" % (hist, "heap with two segments" if multi else "one segment", msg),
+                              "history=%s\nsegments=%d\n" % (hist, 2 if multi else 1), ext="hist")
+    chk.sample("newkey(0) neweph(E0,key=K0,value=list-of-own-key) dropkey(0) gc  => E0 must be broken")
     # (b)
     def limit():
         resource.setrlimit(resource.RLIMIT_NOFILE, (64, 64))
